@@ -198,5 +198,134 @@ theorem rep_exists (Dom : Int → Prop) (rk : Int → Nat)
     refine ⟨.node 0 0 ks, ?_⟩
     simp only [Rep]
     exact ⟨cs, key, _, hc, hk, fun s => hind s default, hks⟩
+
+/-! ### the same with a bound on the size: when `pair` returns every child at most once, the key nodes of the rose tree are distinct rows -/
+
+mutual
+/-- the `id` fields in preorder -/
+def idsBT : BT → List Int
+  | .node i _ ks => i :: idsBTL ks
+def idsBTL : List BT → List Int
+  | [] => []
+  | t :: ts => idsBT t ++ idsBTL ts
+end
+
+mutual
+theorem idsBT_length : ∀ t : BT, (idsBT t).length = t.size
+  | .node i m ks => by simp [idsBT, BT.size, idsBTL_length ks]; omega
+theorem idsBTL_length : ∀ ts : List BT, (idsBTL ts).length = Asm.sizeL ts
+  | [] => rfl
+  | t :: ts => by simp [idsBTL, Asm.sizeL, idsBT_length t, idsBTL_length ts]
+end
+
+/-- `x` is `c` or a descendant of `c` in the children relation `kids` -/
+inductive Desc (kids : Int → List Int) : Int → Int → Prop
+  | refl (c : Int) : Desc kids c c
+  | step {c x y : Int} : Desc kids c x → y ∈ kids x → Desc kids c y
+
+variable (kids : Int → List Int) (Dom : Int → Prop) (rk : Int → Nat)
+
+theorem Desc.of_kid {h c x : Int} (hc : c ∈ kids h) (hd : Desc kids c x) : Desc kids h x := by
+  induction hd with
+  | refl => exact Desc.step (Desc.refl _) hc
+  | step _ hm ih => exact Desc.step ih hm
+
+theorem Desc.dom_rk (hk : ∀ x y, Dom x → y ∈ kids x → Dom y ∧ rk y < rk x) {c x : Int} (hd : Desc kids c x) (hc : Dom c) :
+    Dom x ∧ rk x ≤ rk c := by
+  induction hd with
+  | refl => exact ⟨hc, le_refl _⟩
+  | step _ hy ih => have := hk _ _ ih.1 hy; exact ⟨this.1, by omega⟩
+
+/-- the subtrees below two different children of one node are disjoint (every row has one parent, ranks drop) -/
+theorem Desc.disjoint (hk : ∀ x y, Dom x → y ∈ kids x → Dom y ∧ rk y < rk x) (huniq : ∀ x x' y, y ∈ kids x → y ∈ kids x' → x = x')
+    (h c1 c2 : Int) (hh : Dom h) (h1 : c1 ∈ kids h) (h2 : c2 ∈ kids h) (hne : c1 ≠ c2) :
+    ∀ x, Desc kids c1 x → Desc kids c2 x → False := by
+  have d1 := hk h c1 hh h1
+  have d2 := hk h c2 hh h2
+  intro x hx
+  induction hx with
+  | refl =>
+    intro hx2
+    cases hx2 with
+    | refl => exact hne rfl
+    | step hy hm =>
+      have := huniq _ _ _ hm h1; subst this
+      have := (Desc.dom_rk kids Dom rk hk hy d2.1).2; omega
+  | step hx' hm ih =>
+    intro hx2
+    cases hx2 with
+    | refl =>
+      have := huniq _ _ _ hm h2; subst this
+      have := (Desc.dom_rk kids Dom rk hk hx' d1.1).2; omega
+    | step hy hm2 =>
+      have := huniq _ _ _ hm hm2; subst this
+      exact ih hy
+
+/-- **`rep_exists` with distinct key nodes**: `kids h` is what `node_children` returns, `pair` hands back children of `h`, each at most once, whatever its
+state; ranks drop and every row has one parent.  Then `h` represents a `BT` whose `id` fields are distinct descendants of `h` -/
+theorem rep_exists_sized
+    (hstep : ∀ h, Dom h → ∃ key, node_children ids pids h = some (kids h) ∧ Py.idx ids h = some key ∧
+      (∀ s s' : σ, (pair s (Py.Dict.getD branches key []) (kids h)).2 = (pair s' (Py.Dict.getD branches key []) (kids h)).2) ∧
+      ∀ s : σ, (∀ pr ∈ (pair s (Py.Dict.getD branches key []) (kids h)).2, pr.2 ∈ kids h) ∧
+        ((pair s (Py.Dict.getD branches key []) (kids h)).2.map (·.2)).Nodup)
+    (hk : ∀ x y, Dom x → y ∈ kids x → Dom y ∧ rk y < rk x) (huniq : ∀ x x' y, y ∈ kids x → y ∈ kids x' → x = x') :
+    ∀ (n : Nat) (h : Int), Dom h → rk h < n →
+      ∃ t, Rep pair dupFirst dupLast ids pids branches t h ∧ (idsBT t).Nodup ∧ ∀ x ∈ idsBT t, Desc kids h x := by
+  intro n
+  induction n with
+  | zero => intro h _ hr; omega
+  | succ n ih =>
+    intro h hd hr
+    obtain ⟨key, hc, hkey, hind, hout⟩ := hstep h hd
+    have hl : ∀ prs : List (List Int × Int), (∀ pr ∈ prs, pr.2 ∈ kids h) → (prs.map (·.2)).Nodup →
+        ∃ ks, RepL pair dupFirst dupLast ids pids branches ks h prs ∧ (idsBTL ks).Nodup ∧
+          ∀ x ∈ idsBTL ks, ∃ pr ∈ prs, Desc kids pr.2 x := by
+      intro prs
+      induction prs with
+      | nil => intro _ _; exact ⟨[], by simp [RepL], by simp [idsBTL], by simp [idsBTL]⟩
+      | cons pr prs ihp =>
+        intro hall hnd
+        rw [List.map_cons, List.nodup_cons] at hnd
+        obtain ⟨ks, hks, hksn, hksd⟩ := ihp (fun q hq => hall q (by simp [hq])) hnd.2
+        have hpr := hall pr (by simp)
+        have hprd := hk h pr.2 hd hpr
+        obtain ⟨t, ht, htn, htd⟩ := ih pr.2 hprd.1 (by omega)
+        obtain ⟨i, m, kk⟩ := t
+        refine ⟨.node i (trim dupFirst dupLast pr.1 h pr.2).length kk :: ks, ?_, ?_, ?_⟩
+        · simp only [RepL]
+          exact ⟨rfl, Rep.relabel pair dupFirst dupLast ids pids branches i i m _ kk pr.2 ht, hks⟩
+        · simp only [idsBTL]
+          have e : idsBT (.node i (trim dupFirst dupLast pr.1 h pr.2).length kk) = idsBT (.node i m kk) := by simp [idsBT]
+          rw [e, List.nodup_append]
+          refine ⟨htn, hksn, ?_⟩
+          intro a ha b hb hab
+          subst hab
+          obtain ⟨pr', hpr', hd'⟩ := hksd a hb
+          have hne : pr.2 ≠ pr'.2 := fun e => hnd.1 (List.mem_map.2 ⟨pr', hpr', e.symm⟩)
+          exact Desc.disjoint kids Dom rk hk huniq h pr.2 pr'.2 hd hpr (hall pr' (by simp [hpr'])) hne a (htd a ha) hd'
+        · intro x hx
+          simp only [idsBTL, List.mem_append] at hx
+          rcases hx with hx | hx
+          · exact ⟨pr, by simp, htd x (by simpa [idsBT] using hx)⟩
+          · obtain ⟨pr', hpr', hd'⟩ := hksd x hx
+            exact ⟨pr', by simp [hpr'], hd'⟩
+    obtain ⟨ks, hks, hksn, hksd⟩ := hl (pair default (Py.Dict.getD branches key []) (kids h)).2 (hout default).1 (hout default).2
+    refine ⟨.node h 0 ks, ?_, ?_, ?_⟩
+    · simp only [Rep]
+      exact ⟨kids h, key, _, hc, hkey, fun s => hind s default, hks⟩
+    · simp only [idsBT, List.nodup_cons]
+      refine ⟨fun hm => ?_, hksn⟩
+      obtain ⟨pr, hpr, hd'⟩ := hksd h hm
+      have hp2 := (hout default).1 pr hpr
+      have := (Desc.dom_rk kids Dom rk hk hd' (hk h pr.2 hd hp2).1).2
+      have := (hk h pr.2 hd hp2).2
+      omega
+    · intro x hx
+      simp only [idsBT, List.mem_cons] at hx
+      rcases hx with rfl | hx
+      · exact Desc.refl _
+      · obtain ⟨pr, hpr, hd'⟩ := hksd x hx
+        have hp2 := (hout default).1 pr hpr
+        exact Desc.of_kid kids hp2 hd'
 end
 end RefineAsm
